@@ -19,6 +19,7 @@ def run2(cmd, timeout, mem_gb=24, cwd=None):
         open(os.path.join(wd, 'out.json'), 'w').write(r['out'])
     return r
 prove.run = run2
+cfile = runcheck.mmode_file(U, m, g, open(cfile).read(), wd) if g.mode == 'M' else cfile
 r = prove.prove_group(cfile, g, wd)
 print(r['status'], r['reason'], r['props'], r['ok'], r['secs'])
 js = json.load(open(os.path.join(wd, 'out.json')))
